@@ -1,5 +1,5 @@
 """C06 — idle-time breakdown: gaps between stream-consecutive kernels, classified by rule."""
-from harness.common import sand, sor, snot
+from harness.common import precalls, sand, sor, snot
 from symx import tracegen as TG
 from symx.engine import site, smax
 
@@ -23,7 +23,7 @@ EXPLANATION = ("Real TraceAnalysis.get_idle_time_breakdown (BreakdownAnalysis.ge
                "Non-trivial path = admits two different categories with positive time on one stream.")
 ASSUMPTIONS = ["well-formed: host calls pairwise nested or disjoint, each correlation id pairs one launch with one "
                "kernel, event 0 is a host operator", "kernels of one stream do not overlap (touching and zero length "
-               "allowed)", "kernel.ts >= launch.ts", "round(x,2) modelled as within 0.005", "JSON reading stubbed"]
+               "allowed)", "kernel.ts >= launch.ts is NOT assumed", "round(x,2) modelled as within 0.005", "JSON reading stubbed"]
 STUBS = ["hta.common.trace_parser.parse_trace_dict", "Trace._validate_trace_files", "plotly", "logging"]
 S1, S2 = 7, 20
 
@@ -40,6 +40,8 @@ def skeletons(tier):
                 args = [None, [S1]]
             for a in args:
                 out.append({"id": f"{w}-streams{a}", "word": w, "params": {"streams": a, "sync": False}})
+    for pre in ("temporal", "queue", "launch", "kernels"):
+        out.append({"id": f"aa-after-{pre}", "word": "aa", "params": {"streams": None, "sync": False, "pre": [pre]}})
     if tier == "thorough":
         for w in ["aa", "ab", "aab"]:
             out.append({"id": f"{w}-sync", "word": w, "params": {"streams": None, "sync": True}})
@@ -75,13 +77,14 @@ def run(ctx):
             ctx.assume(sor(e1 <= s2, e2 <= s1, sand(s1 <= s2, e2 <= e1), sand(s2 <= s1, e1 <= e2)))
     for k in K:
         k["end"] = k["ts"] + k["dur"]
-        ctx.assume(k["ts"] >= k["lts"])
+        pass      # kernel.ts >= launch.ts is not assumed: the quantifier does not ask for causal consistency
     for a in range(len(K)):
         for b in range(a + 1, len(K)):
             if K[a]["stream"] == K[b]["stream"]:
                 ctx.assume(sor(K[a]["end"] <= K[b]["ts"], K[b]["end"] <= K[a]["ts"]))
     ta = ctx.open({0: events})
     streams = ctx.params["streams"]
+    precalls(ctx, ta)
     res, _ = ta.get_idle_time_breakdown(ranks=[0], streams=streams, visualize=False, consecutive_kernel_delay=thr)
     r_stream = [int(x) for x in ctx.cells(res["stream"])]
     r_cat = [str(x) for x in ctx.cells(res["idle_category"])]
